@@ -337,9 +337,16 @@ func (b *OnDemandBlockTaskPool) goroutine(id int) {
 		case <-idleTimer.C:
 			b.mutex.Lock()
 			b.totalGo--
+			left := b.totalGo
 			b.timeoutGroup.delete(id)
 			// log.Printf("id %d timeout, timeoutGroup.Size=%d left\n", id, b.timeoutGroup.size())
 			b.mutex.Unlock()
+			if left == 0 {
+				// 超时退出的协程也可能是Shutdown之后最后一个退出的协程，同样需要负责状态迁移
+				if atomic.CompareAndSwapInt32(&b.state, stateClosing, stateStopped) {
+					b.interruptCtxCancel()
+				}
+			}
 			return
 		case task, ok := <-b.queue:
 			// log.Println("id", id, "running tasks")
